@@ -1,7 +1,7 @@
 (* C04 - NFC-DEP delivers each payload exactly once, intact, or reports failure.
    Only statements here; proofs are in Proofs/DepCodec.v, DepTarget.v, DepBound.v, DepSrr.v,
-   DepExact.v, DepSafety.v.  The model (Model/Dep.v) is of the tree with the four committed NFC-DEP repairs; the unrepaired
-   request_retransmission (ACK after NAK -> ProtocolError) is modelled as it is.
+   DepExact.v, DepSafety.v.  The model (Model/Dep.v) is of the repaired code (committed repairs b836295, 7efe465, 0d645cb, 2786f8b and
+   fixes/c04-nak-ack-retransmit-chained.diff).
 
    conversation n fuel ic tc script payloads app timeout release
      runs a real-code-shaped Initiator (exchange over send_dep_req_recv_dep_res with ATN / NAK
@@ -51,14 +51,11 @@ Print Assumptions C04_dep_safety.
 
 (* --- any single lost or corrupted frame per protocol step is recovered transparently: for EVERY script in which each
        faulty round (request or response lost or corrupted) is followed by two fault free rounds, all payload sizes
-       and conversation lengths, the result is exact (exchange time-out at least two response waiting times) -
-       EXCEPT when the corrupted frame is an ACK response during initiator chaining.  The guard excludes that
-       class: no response is corrupted (NC), or no payload of the initiator needs chaining (then no ACK response
-       exists).  Full statement (false of the tree as it is, see the _refuted theorem):
-         forall ..., did_valid did -> ... -> 2 <= timeout -> Sparse script -> ... -> o_ini o = map IOk (firstn (length P) R) /\ ... --- *)
+       and conversation lengths, the result is exact (exchange time-out at least two response waiting times).
+       No guard on the kind of frame: with fixes/c04-nak-ack-retransmit-chained.diff a corrupted ACK response during
+       initiator chaining is recovered like any other frame. --- *)
 Theorem C04_dep_single_fault_recovered : forall b106 lri lrt did nad n fuel script P R timeout release,
   did_valid did -> Z.max 0 timeout < Z.of_nat fuel -> 2 <= timeout -> Sparse script ->
-  (NC script \/ Forall (fun x => len x <= ic_miu (mk_icfg b106 lrt did nad)) P) ->
   nonempty_all P -> nonempty_all R -> fits n P -> fits n R -> (length P <= length R)%nat ->
   let o := conversation n fuel (mk_icfg b106 lrt did nad) (mk_tcfg b106 lri did) script P (app_of R) timeout release in
   o_ini o = map IOk (firstn (length P) R) /\
@@ -66,19 +63,17 @@ Theorem C04_dep_single_fault_recovered : forall b106 lri lrt did nad n fuel scri
 Proof. intros. apply dep_single_fault_recovered_thm; try assumption. apply valid_mk; assumption. Qed.
 Print Assumptions C04_dep_single_fault_recovered.
 
-(* the excluded class is a genuine defect: one corrupted ACK (payload of MIU + 1 = 62 bytes, LR 64, response to the
-   first, chained DEP_REQ corrupted) is not recovered - request_retransmission raises ProtocolError
-   "unrecoverable NFC-DEP transmission error" on the retransmitted ACK.  Not repaired: the behaviour is pinned by
-   tests/test_dep.py::TestInitiator::test_exchange_retransmission_invalid_response. *)
-Theorem C04_dep_single_fault_recovered_refuted :
-  exists script P R,
-    Sparse script /\ nonempty_all P /\ nonempty_all R /\ fits 200 P /\ fits 200 R /\ did_valid None /\
-    o_ini (conversation 200 20 (mk_icfg false 0 None None) (mk_tcfg false 0 None) script P (app_of R) 8 (Some true))
-      = [IErr ProtocolError].
-Proof.
-  exists [(FD, FC); (FD, FD); (FD, FD)], [repeat 1 62], [[2]]. vm_compute. repeat split; repeat constructor; try discriminate; auto.
-Qed.
-Print Assumptions C04_dep_single_fault_recovered_refuted.
+(* the input that was not recovered before the repair (62 byte payload at LR 64, the ACK to the first, chained DEP_REQ
+   corrupted) is recovered; an ACK answered to the NAK for a LAST information PDU is still a ProtocolError (the
+   behaviour pinned by tests/test_dep.py::test_exchange_retransmission_invalid_response) *)
+Example C04_corrupted_ack_recovered :
+  o_ini (conversation 200 20 (mk_icfg false 0 None None) (mk_tcfg false 0 None) [(FD, FC)] [repeat 1 62] (app_of [[2]]) 8 (Some true))
+    = [IOk [2]] /\
+  (forall w, fst (req_nak 1 (mk_icfg false 0 None None) (mk_tcfg false 0 None) 0 false 1 5
+                    (mkw (mktgt (Some 0) (TRecv [1]) (Some (mkdep F_ACK 0 None None [])) [] [] [] true) [] 0 w)) = Err ProtocolError) /\
+  (forall w, fst (req_nak 1 (mk_icfg false 0 None None) (mk_tcfg false 0 None) 0 true 1 5
+                    (mkw (mktgt (Some 0) (TRecv [1]) (Some (mkdep F_ACK 0 None None [])) [] [] [] true) [] 0 w)) = Ok (PDepRes (mkdep F_ACK 0 None None []))).
+Proof. split; [vm_compute; reflexivity|]. split; intro w; reflexivity. Qed.
 
 (* --- one protocol step (send_dep_req_recv_dep_res) under every script: it fails, or it returns exactly the
        response the target produced when it accepted the request; the target accepts the request at most once --- *)
